@@ -14,7 +14,7 @@ MIN_EVALUATIONS = {"quick": 8000, "thorough": 8000}  # fewer oracle evaluations 
 RULE = ("generic_message over: service 0..0x7F (int and bytes), class/instance/attribute as int or 1/2/4-byte bytes over 8/16/32-bit "
         "values, request data of every length 0..64 and random to 400, transports {connected, direct UCMM, Unconnected Send}, route_path "
         "in {True, False, string, segment list, pre-encoded bytes}, arguments by keyword or the first 3..10 of them positionally in the documented order, driver paths spelled from the path grammar over 0-3 hop chassis, any "
-        "reply data / status chosen by the target; helpers get_module_info(slot), get_plc_name, get_plc_info, get/set_plc_time "
+        "reply data / status chosen by the target (typed replies decoded with the type or, in 30 % of the cases, a named instance of it); helpers get_module_info(slot), get_plc_name, get_plc_info, get/set_plc_time "
         "(0..year 9999 in microseconds); get_module_info on an empty slot; typed replies too short for the data type; re-open after a close() "
         "whose Forward Close the target refused (connection timed out on the PLC); Unconnected Send refused by the router itself (reply service 0xD2: falsy Tag "
         "with the status text); get_plc_name() again after the controller's program name changed; set_plc_time() without an argument; get_plc_time() answered with success replies that hold no value (attribute status, cut, empty) or bytes after the value "
@@ -197,6 +197,13 @@ def run(ctx):
                             except rc.RefError:
                                 rdata, short_reply = cut, True
                 state["reply"] = (status, ext, rdata)
+                if dt is not None and rng.random() < 0.3:
+                    # `data_type` may be a type or a named member of one (what a Struct definition holds: UINT("vendor")) - both decode
+                    try:
+                        dt = dt("reply_q")
+                        res.count("typed-replies-decoded-with-a-named-instance")
+                    except Exception:  # noqa  (a type that cannot be instantiated with a name stays a class)
+                        pass
                 kwargs = dict(service=service if rng.random() < 0.5 else bytes([service]), class_code=arg_form(rng, cls_v),
                               instance=arg_form(rng, inst_v), request_data=req_data, data_type=dt, name=f"msg{k}")
                 if use_attr:
